@@ -164,6 +164,9 @@ Definition commit_of (e : event) : N * N * list N := (e_id e, e_data e, e_remove
 (* commit.rs process_commit (after OpenMLS accepted the commit `cm`) and the OwnCommitPending branch of process.rs:
    the snapshot and the dedup record are those of the DELIVERED event `e`; the commit merged is `cm` (for an own echo:
    whatever commit is pending - which need not be the one the echo carries) *)
+(* the MLS content type of the event is Commit (kinds: 0 commit, 1 application message, 2 proposal, 3 hostile wrapper) *)
+Definition is_commit_kind (e : event) : bool := negb (e_kind e =? 1) && negb (e_kind e =? 2).
+
 Definition apply_commit (c : client) (e : event) (cm : N * N * list N) : client * rk :=
   let c1 := take_snapshot c e in
   let ev := evicted_by c (snd cm) in
@@ -196,8 +199,9 @@ Fixpoint process (fuel : nat) (c : client) (e : event) : client * rk :=
   (* step 3: OpenMLS process_message *)
   let wrong_epoch := if e_kind e =? 1 then k_epoch k <? e_epoch e else negb (e_epoch e =? k_epoch k) in
   if wrong_epoch then
-    (* error_handling.rs: ProcessMessageWrongEpoch *)
-    if is_better c (e_epoch e) (e_ts e) (e_key e) then
+    (* error_handling.rs: ProcessMessageWrongEpoch; only a COMMIT is a MIP-03 candidate (fix: a late proposal or message
+       never displaces the applied commit of its epoch) *)
+    if is_commit_kind e && is_better c (e_epoch e) (e_ts e) (e_key e) then
       match find_snap (e_epoch e) (queue c), fuel with
       | Some s, S f => process f (rollback c (e_epoch e) s) e
       | _, _ => fail_unprocessable c e rec_epoch
